@@ -171,7 +171,13 @@ Allowed(name, a) == {"ok", "err"}
 Names == ndJsonDeserialize(IOEnv.NAMES)[1].names
 NP == Len(Names)
 
-CONSTANTS MinArity, MaxArity, Stride, Offset
+CONSTANTS MinArity, MaxArity, Stride, Offset,
+          Reduced      \* TRUE: arguments from the reduced palette below, all tuples, procedures taking >= 3 arguments
+
+\* reduced palette: a list, a vector, a string, a character, 0, 2, -1 -- the same object may occupy several
+\* positions (aliasing between arguments)
+RPal == <<2, 7, 10, 11, 13, 14, 31>>
+NR == Len(RPal)
 
 Mod(a, b) == a - b * (a \div b)
 RECURSIVE Pow(_, _)
@@ -189,7 +195,17 @@ vars == <<ar, k, done>>
 Space(a) == NP * PerProc(a)
 
 \* arities up to 2 have at most 185 * 1024 calls; larger arities are sampled from the first 2^30 indices
-Init == ar \in MinArity..MaxArity /\ k \in {x \in 0..((IF ar <= 2 THEN Space(ar) ELSE 1000000) - 1) : Mod(x, Stride) = Mod(Offset, Stride)} /\ done = FALSE
+\* procedures that accept three or more arguments
+Wide == {p \in 1..NP : LET sg == Sig(Names[p]) IN sg # Default /\ (sg.max = -1 \/ sg.max >= 3)}
+RInit == /\ Reduced
+         /\ ar \in MinArity..MaxArity
+         /\ k \in {p * 100000 + x : p \in Wide, x \in 0..(Pow(NR, ar) - 1)}
+         /\ done = FALSE
+RCall == LET p == k \div 100000
+             r == Mod(k, 100000)
+         IN [name |-> Names[p], a |-> [j \in 1..ar |-> RPal[Mod(r \div Pow(NR, j - 1), NR) + 1]]]
+
+Init == IF Reduced THEN RInit ELSE ar \in MinArity..MaxArity /\ k \in {x \in 0..((IF ar <= 2 THEN Space(ar) ELSE 1000000) - 1) : Mod(x, Stride) = Mod(Offset, Stride)} /\ done = FALSE
 
 CallOf == IF ar <= 2 THEN Decode(ar, k)
           ELSE \* sampled: spread the index over the space with a multiplicative step (space sizes stay below 2^31 by reducing modulo)
@@ -201,7 +217,7 @@ EmitLine(c) ==
   ELSE PrintT(<<"REPLAY", ToJson([name |-> c.name, a |-> c.a, allow |-> Allowed(c.name, c.a), r7rs |-> Prescribed(c.name, c.a)])>>)
 Emit ==
   /\ ~done
-  /\ EmitLine(CallOf)
+  /\ EmitLine(IF Reduced THEN RCall ELSE CallOf)
   /\ done' = TRUE
   /\ UNCHANGED <<ar, k>>
 Spec == Init /\ [][Emit]_vars
